@@ -108,7 +108,21 @@ SCRIPT = {}
 DEPTH = [0]
 CUR = [None]
 HANDLERS = []
-VALUES = [0, 1, "s", None, [1], (1, 2), (1, "a"), 2 ** 70, 1.5, object(), 3, (2, None)]
+class Finalizer:
+    """A value whose finalizer allocates and collects: garbage collection in the middle of an object's teardown."""
+
+    def __del__(self):
+        junk = [[i] for i in range(20)]
+        junk.append(junk)
+        del junk
+        gc.collect()
+
+
+class _FreshFinalizer:
+    pass
+
+
+VALUES = [0, 1, "s", None, [1], (1, 2), (1, "a"), 2 ** 70, 1.5, object(), 3, (2, None), _FreshFinalizer]
 
 
 class Surgeon(TraitType):
@@ -188,7 +202,8 @@ def do(a, o, inner=False):
     k = a[0]
     try:
         if k == "set":
-            setattr(o, a[1], VALUES[a[2] % len(VALUES)])
+            v = VALUES[a[2] % len(VALUES)]
+            setattr(o, a[1], Finalizer() if v is _FreshFinalizer else v)
         elif k == "get":
             getattr(o, a[1])
         elif k == "del":
@@ -200,6 +215,20 @@ def do(a, o, inner=False):
         elif k == "otc_rem":
             if HANDLERS:
                 o.on_trait_change(HANDLERS[a[2] % len(HANDLERS)], a[1], remove=True)
+        elif k == "any_add":
+            h = (lambda: ACT("dyn", o))
+            HANDLERS.append(h)
+            o.on_trait_change(h)                      # object-level handler (no name)
+        elif k == "any_rem":
+            if HANDLERS:
+                o.on_trait_change(HANDLERS[a[1] % len(HANDLERS)], remove=True)
+        elif k == "drop":
+            # build an object holding values with finalizers and drop it (teardown with GC activity)
+            t = o.__class__()
+            t.a = Finalizer()
+            t.inst = Peer(a=Finalizer())
+            t.l = [1, 2]
+            del t
         elif k == "obs_add":
             h = (lambda e: ACT("dyn", o))
             HANDLERS.append(h)
@@ -278,6 +307,8 @@ def act_strategy():
         st.tuples(st.just("trait_set")), st.tuples(st.just("reset")),
         st.tuples(st.just("validate"), st.sampled_from(["a", "i", "l", "t", "e", "inst", "s"]), st.integers(0, 20)),
         st.tuples(st.just("copyable")), st.tuples(st.just("itrait"), st.sampled_from(["a", "i", "s", "l"])),
+        st.tuples(st.just("any_add")), st.tuples(st.just("any_add")), st.tuples(st.just("any_rem"), st.integers(0, 5)),
+        st.tuples(st.just("any_rem"), st.integers(0, 5)), st.tuples(st.just("drop")),
     ).map(list)
 
 
